@@ -266,6 +266,18 @@ def r6(run, db):
                     n += 1
                     ab = [c.site for c in g.calls() if (c.callee in aborters) or c.matches(r"JoinHandle::<T>::abort$")]
                     good = bool(ab) and any(g.dominates(x, site) for x in ab)
+                    if not good:
+                        # `if let Some(old) = self.field.take() { old.abort() }`: the field is emptied first and the old timer, if
+                        # there was one, is aborted on the way to the store
+                        for tk in g.calls():
+                            if not tk.matches(r"Option::<T>::take$") or not g.dominates(tk.site, site):
+                                continue
+                            names = [proj_field_name(e) for r in g.origins(tk.args[0]) for e in r.get("proj", []) + r.get("trail", []) if e.startswith("f:")]
+                            if fname not in names:
+                                continue
+                            se = nested_variant_edge(g, tk, ["Some"])
+                            if se and ab and g.must_pass(Site(se[1], 0), ab, to_sites=[site]):
+                                good = True
                     run.check(good, "timer-handle-overwrite:%s.%s@%s" % (k.split("::")[-1], fname, g.id.split("::")[-1]), "%s re-arms `%s` only after aborting the timer stored there" % (g.id.split("::")[-1], fname),
                               "%s overwrites the stored timer handle `%s` without aborting the old timer: dropping a JoinHandle detaches the task, so the superseded timer still fires at its old due time" % (g.id.split("::")[-1], fname), g.where(st.get("l")))
     run.anchor("re-armed timer handle stores", n, 1)
